@@ -107,7 +107,28 @@ def c20(res):
                       "a case = one tracing evaluation or one bulk-shape observation")
 
 
-CHECKS = {"C01": c01, "C20": c20}
+def c04(res):
+    wd = workdir("C04")
+    q = res.tier == "quick"
+    res.models.append(model_check("Simplify", "Simplify_quick.cfg" if q else "Simplify_thorough.cfg", wd, workers=8, timeout=3000))
+    res.models.append(model_check("EvalTrace", "EvalTrace.cfg", wd, workers=4))
+    progs = gen_programs(res, wd)
+    trace = os.path.join(wd, "trace.ndjson")
+    if not run_recorder(res, "c04", [progs, res.tier, trace], wd):
+        return res.finish("recorder crashed")
+    n, rej = validate("Trace_C04", trace, wd, timeout=3000)
+    res.validated = n - len(rej)
+    res.evaluations = n
+    res.samples = sample_lines(trace, maxlen=6000)
+    res.add_rejects(trace, rej, lambda r, f: "backend=%s tracer=%s depth=%s fails=%s" % (r.get("label"), r.get("tracer"), r.get("depth"), "+".join(f)))
+    res.assumptions = ["a trace is only used with the backend it came from (interpreter and JIT may legitimately differ in the sign of a min/max of equal zeros)",
+                       "the traced domain is sampled: corners, midpoint and random interior points of each box"]
+    return res.finish("choice-heavy programs from the Alloc.tla generator and seeded long programs; traces from the four tracing "
+                      "evaluators; simplification into the same and into different register budgets; chains of up to three nested "
+                      "simplifications; a case = one simplify call with its observations")
+
+
+CHECKS = {"C01": c01, "C04": c04, "C20": c20}
 
 
 def replay(prop, path):
